@@ -41,6 +41,9 @@ def histories(tier, rnd):
     hs.append({"id": n, "steps": [{"c": 0, "entry": "stmt", "code": "{ RdV = 4 / 2; }"}, {"c": 0, "entry": "stmt", "code": "{ RsV = 1; }"},
                                   {"c": 0, "entry": "insn", "code": "{ i++; RdV = unknown_fn(RsV); }"}, {"c": 0, "entry": "insn", "code": "{ RdV = RsV + 1; }"},
                                   {"c": 0, "entry": "stmt", "code": "{ RdV = clz32(RsV); }"}, {"c": 1, "entry": "stmt", "code": "{ RdV = clz32(RsV); }"}]})
+    # D33 witness: a user identifier spelled like the temporary the counter is about to hand out
+    hs.append({"id": n + 1, "steps": [{"c": 0, "entry": "stmt", "code": "{ RxV++; }"} for _ in range(7)]
+               + [{"c": 0, "entry": "stmt", "code": "{ int32_t h_tmp7 = 5; RdV = RxV++; ReV = h_tmp7; }"}]})
     return hs
 
 
@@ -84,6 +87,15 @@ def run(tier):
                               "in_history": {x: st.get(x) for x in ("ok", "exc", "msg", "meta")}, "fresh": {x: f0.get(x) for x in ("ok", "exc", "msg", "meta")},
                               "text_in_history": st.get("text"), "text_fresh": f0.get("text")})
                 break
+    known = {k["id"]: k for k in common.load_known("C14")}
+    if "D33" in known:
+        rest = []
+        for f in fails:
+            if re.search(r"\bh_tmp\d+\b", f["behaviour"]):
+                res.known(f"D33: {known['D33']['what']} -- behaviour {f['behaviour']}")
+            else:
+                rest.append(f)
+        fails = rest
     for f in fails[:1]:
         res.violation({"what": "the result of compiling a behaviour after a history differs from compiling it first in a fresh process "
                                "(beyond renaming of h_tmpN and comments)", "input": f, "broken": [vars(x) for x in broken]})
@@ -92,10 +104,11 @@ def run(tier):
                        "broken": [vars(x) for x in broken]}, no_input=True)
     res.assumptions = ["Coq kernel + vm_compute", "translator tools/vt/tr_meta.py (field / call tables)",
                        "cross-process state (files under Resources/ rewritten by the preprocessor) is outside this check (see C20)",
-                       "the influence of hybrid_op_count is taken to be the renaming of h_tmpN (tested by the comparison, not yet proved about the model)"]
+                       "the influence of hybrid_op_count on the MODEL is exactly the renaming of h_tmpN: theorem C14_history_independent (proofs/HShift.v), for every program "
+                       "that does not itself spell an identifier h_tmp<digits>"]
     res.coverage = {"obligations": binfo["obligations"], "discharged": binfo["discharged"] if model_ok else 0, "checker_cmd": binfo["checker_cmd"],
                     "trusted_base": res.assumptions, "print_assumptions": binfo["assumptions"], "translated": meta,
-                    "theorems": ["C14_only_the_counter_survives_reset", "C14_reset_is_complete", "C14_every_entry_point_resets_on_every_path", "C14_extension_state_is_reset"],
+                    "theorems": ["C14_counter_shift_is_a_renaming", "C14_history_independent_model", "C14_only_the_counter_survives_reset", "C14_reset_is_complete", "C14_every_entry_point_resets_on_every_path", "C14_extension_state_is_reset"],
                     "evaluations": n_cmp, "distinct_nontrivial": len(keys),
                     "rule": "random histories of 3-10 steps over two Compiler instances, entry points transform_insn and compile_c_stmt, failing inputs "
                             "(parse errors, unsupported constructs, type errors, failures with pending hybrids) at random positions; every step is compared with "
